@@ -312,13 +312,18 @@ func (g *Generator) buildFlattenedVariantSchemas(
 
 		// Build variant schema: common fields + discriminator + variant fields
 		variantProps := orderedmap.New[string, *base.SchemaProxy]()
+		variantRequired := []string{info.Discriminator}
 
 		// Add common (non-oneof) fields
 		for _, field := range message.Fields {
 			if oneofFields[string(field.Desc.Name())] {
 				continue
 			}
-			variantProps.Set(field.Desc.JSONName(), g.convertField(field))
+			fieldName := field.Desc.JSONName()
+			variantProps.Set(fieldName, g.convertField(field))
+			if checkIfFieldRequired(field) {
+				variantRequired = append(variantRequired, fieldName)
+			}
 		}
 
 		// Add discriminator field
@@ -331,14 +336,18 @@ func (g *Generator) buildFlattenedVariantSchemas(
 		// Add variant's message fields (flattened to parent level)
 		if variant.IsMessage {
 			for _, childField := range variant.Field.Message.Fields {
-				variantProps.Set(childField.Desc.JSONName(), g.convertField(childField))
+				childName := childField.Desc.JSONName()
+				variantProps.Set(childName, g.convertField(childField))
+				if checkIfFieldRequired(childField) {
+					variantRequired = append(variantRequired, childName)
+				}
 			}
 		}
 
 		variantSchema := &base.Schema{
 			Type:       []string{"object"},
 			Properties: variantProps,
-			Required:   []string{info.Discriminator},
+			Required:   variantRequired,
 		}
 
 		// Register and reference the variant schema
